@@ -311,6 +311,31 @@ def run(chk):
         if r != str(k * (SCALE // 1024)):
             chk.violation("tie:unix", f"generated Lean {line!r} = {r}, expected {k * (SCALE // 1024)}", {"model": line}, no_input=True)
 
+    # arbitrary doubles (float territory: no theorem, round trip in the implementation only).  For t >= 0 the parts are exact
+    # and the round trip must be the identity; for t < 0 the seconds part (t mod 60) is rounded once, so |error| <= 2^-46.
+    fts = [59.99999999999999, 119.99999999999999, 0.1, 1e-20, -1e-20, -0.1, 1000000000.1, -1000000000.1, 86399.99999999999,
+           4.9e-324, -4.9e-324, 3599.9999999999995, 1e11 - 0.001, -(1e11 - 0.001)]
+    for _ in range(200 if quick else 20000):
+        fts.append(rng.choice([rng.uniform(-1e11, 1e11), rng.uniform(-1e5, 1e5), rng.uniform(-100, 100), 60.0 * rng.randrange(-10 ** 6, 10 ** 6) - rng.choice([2.0 ** -k for k in range(20, 46)])]))
+
+    def flit(x):
+        h = struct.pack(">d", x).hex()
+        return f"__verif_f({int(h, 16) >> 52 & 0x7ff}, {int(h, 16) & (2 ** 52 - 1)}, {1 if x < 0 or h[0] in '89abcdef' else 0})"
+    # exact construction of the double from its fields (no reliance on float literal parsing)
+    fprel = ("fn __verif_f(e: int, m: int, s: int)->float{ let v = if(e == 0, m / 2**1074, if(e >= 1075, ((2**52 + m) * 2**(e - 1075)).to_float(), "
+             "(2**52 + m) / 2**(1075 - e))); if(s == 1, -v, v) }\n")
+    fex = [f"datetime({flit(t)}).unix()" for t in fts]
+    fd = eval_exprs(fex, prelude=fprel)
+    for t, e, d in zip(fts, fex, fd):
+        chk.evaluations += 1
+        chk.count("datetime:any-double")
+        u = floats_of(d)
+        replay = {"src": fprel + f"let r = {e};", "get": ["r"], "t": repr(t)}
+        if len(u) != 1:
+            chk.violation("lang:unix:float-error", f"datetime({t!r}).unix() = {d}", replay)
+        elif (t >= 0 and u[0] != t) or abs(u[0] - t) > 2.0 ** -40:
+            chk.violation("lang:unix:float-roundtrip", f"datetime({t!r}).unix() = {u[0]!r}", replay)
+
     # ---------------------------------------------------------------------------------------- chr / code_point
     scal = [0, 1, 9, 10, 31, 32, 34, 65, 92, 127, 128, 233, 0x7FF, 0x800, 0xD7FF, 0xE000, 0xFFFD, 0xFFFF, 0x10000, 0x1F600, 0x10FFFF]
     bad = [-1, -2 ** 31, 0xD800, 0xDBFF, 0xDC00, 0xDFFF, 0x110000, 2 ** 31, 2 ** 32 - 1, 2 ** 32, 2 ** 40, 2 ** 64, -2 ** 64]
